@@ -331,7 +331,8 @@ def run(ctx: Ctx) -> None:
     rule_counter_condition(ctx)
     rule_canon_reduced(ctx)
     tableau.rule_fresh_storage(ctx)
-    from .c11 import rule_inverse_blocks, rule_replay, rule_reverse_table
+    from .c11 import rule_inverse_blocks, rule_replay, rule_reverse_table, rule_ctor_phase_source
+    rule_ctor_phase_source(ctx)   # Stabilizer / MixedStabilizer hold Clifford tableaux built from stabilizer tableaux: their signs are the state's signs
     rule_inverse_blocks(ctx)
     rule_reverse_table(ctx)   # a Clifford tableau built from stabilizers replays the inverse circuit: fidelity / equality of such states read it
     rule_replay(ctx)
